@@ -397,6 +397,12 @@ func Edits(d *Dialect) []Edit {
 				c.Attrs = dropAttr[*schema.Collation](dropAttr[*schema.Charset](c.Attrs))
 				c.SetCharset("ascii").SetCollation("ascii_general_ci")
 			}, []string{mt("ModifyColumn(b)[charset,collate]")}},
+			// the column keeps the table's charset and overrides only its collation.
+			Edit{"col_collate_only", []string{"col:b"}, func(s *schema.Schema) {
+				c := C(T(s, "t"), "b")
+				c.Attrs = dropAttr[*schema.Collation](dropAttr[*schema.Charset](c.Attrs))
+				c.SetCharset("latin1").SetCollation("latin1_bin")
+			}, []string{mt("ModifyColumn(b)[charset,collate]")}},
 			Edit{"table_charset_collate", []string{"tattr:charset"}, func(s *schema.Schema) {
 				t := T(s, "t")
 				t.Attrs = dropAttr[*schema.Collation](dropAttr[*schema.Charset](t.Attrs))
